@@ -205,11 +205,25 @@ func isConstBool(v ssa.Value, want bool) bool {
 // derivesFrom reports whether v's backward slice (within its function; through operators, calls'
 // arguments, phis, element/field selection, conversions and loads of locals) contains a value
 // satisfying pred.
+// derivesBarrier, when set, is a value the backward slice does not cross (see derivesFromAvoiding).
+var derivesBarrier ssa.Value
+
+// derivesFromAvoiding is derivesFrom on the slice that does not pass through `avoid`.
+func derivesFromAvoiding(v ssa.Value, avoid ssa.Value, pred func(ssa.Value) bool) bool {
+	old := derivesBarrier
+	derivesBarrier = avoid
+	defer func() { derivesBarrier = old }()
+	return derivesFrom(v, pred)
+}
+
 func derivesFrom(v ssa.Value, pred func(ssa.Value) bool) bool {
 	seen := map[ssa.Value]bool{}
 	var walk func(v ssa.Value, d int) bool
 	walk = func(v ssa.Value, d int) bool {
 		if v == nil || seen[v] || d > 40 {
+			return false
+		}
+		if derivesBarrier != nil && v == derivesBarrier {
 			return false
 		}
 		seen[v] = true
